@@ -26,7 +26,7 @@ func init() {
 	}
 	ExpectedProbes["heap/C15"] = []string{
 		"update-reorders-under-iter", "push-under-iter", "pop-under-iter", "remove-under-iter",
-		"grow-shrink-under-iter", "iter-panicked", "iter-called-again-after-panic", "iter-exhausted-clean",
+		"grow-shrink-under-iter", "iter-panicked", "iter-called-again-after-panic", "iter-exhausted-clean", "iter-gen-wrap",
 	}
 }
 
@@ -88,6 +88,7 @@ type hpIter struct {
 }
 
 type hpW struct {
+	wrapped bool
 	r     *R
 	c15   bool
 	queue bool
@@ -1032,9 +1033,48 @@ func (w *hpW) iterNext(k int) {
 	}
 }
 
+// genWrap: between two consecutive calls of one iterator that is under way, exactly 256 (rarely
+// 65536) modifications are made - as many as a narrow modification counter needs to come round to
+// the value the iterator remembers. Its next call must panic like after any other modification.
+func (w *hpW) genWrap(k int) {
+	r := w.r
+	it := w.iters[k]
+	w.iterNext(k)
+	if r.Failed() || len(w.iters) <= k || w.iters[k] != it || it.exhausted || it.poisoned || !it.started {
+		return
+	}
+	pairs := 128
+	if r.Tier == "thorough" && r.Choose(8, "wrap-64k") == 7 {
+		pairs = 32768
+	}
+	r.Probe("iter-gen-wrap")
+	for i := 0; i < pairs && !r.Failed(); i++ {
+		if w.queue {
+			w.pqOp(hpPush)
+			w.pqOp(hpPop)
+		} else {
+			w.heapOp(hpPush)
+			w.heapOp(hpPop)
+		}
+	}
+	if r.Failed() {
+		return
+	}
+	for q, o := range w.iters {
+		if o == it {
+			w.iterNext(q)
+		}
+	}
+}
+
 func (w *hpW) iterAction(preferNext bool) {
 	r := w.r
 	live := len(w.iters)
+	if live > 0 && !w.wrapped && r.Choose(48, "gen-wrap") == 47 {
+		w.wrapped = true // once per run
+		w.genWrap(r.Choose(live, "iter-pick"))
+		return
+	}
 	c := r.Choose(8, "iter-act")
 	switch {
 	case live == 0 || (c == 0 && live < 3 && !preferNext):
